@@ -295,3 +295,39 @@ def depth_programs(tier, seed):
         items.append(Use('M1', None, '\n'))
         progs.append(DepthProg('chain/macro-%d' % n, items))
     return progs
+
+
+def macro_programs(tier, seed):
+    """IEEE 22.5.1 define/usage programs (C05)"""
+    P = []
+    def prog(label, items, names=('A',)):
+        P.append(Prog('macro/' + label, items, list(names)))
+    # binding: formals with / without defaults, omitted / empty actuals, error cases
+    prog('args-basic', [Def('F', 'x + y', [('x', None), ('y', None)]), T('l', ' '), Use('F', ['1', '2'], ' '), T('r', '\n')])
+    prog('args-defaults', [Def('F', 'x+y+z', [('x', None), ('y', '7'), ('z', '"s"')]), Use('F', ['1'], ' '), Use('F', ['1', '2'], ' '), Use('F', ['1', None, '3'], '\n')])
+    prog('args-empty-actual', [Def('F', '[x|y]', [('x', None), ('y', None)]), Use('F', [None, '5'], ' '), Use('F', ['4', None], '\n')])
+    prog('args-missing-required', [Def('F', 'x y', [('x', None), ('y', None)]), Use('F', ['1'], '\n')])
+    prog('args-missing-second-of-three', [Def('F', 'x y z', [('x', '0'), ('y', None), ('z', '9')]), Use('F', ['1'], '\n')])
+    prog('noargs-for-function-like', [Def('F', 'x', [('x', None)]), T('a', ' '), Use('F', None, ' '), T('b', '\n')])
+    prog('noargs-for-function-like-default', [Def('F', 'x', [('x', '3')]), Use('F', None, '\n')])
+    prog('undefined', [T('a', ' '), Use('NOPE', ['1'], '\n')])
+    prog('nobody', [Def('E'), Def('G', None, [('x', None)]), T('a', ' '), Use('E', None, ' '), Use('G', ['1'], ' '), T('b', '\n')])
+    prog('object-with-parens', [Def('O', 'o1'), Use('O', ['q'], ' '), T('b', '\n')])
+    # actual arguments with nested brackets, strings, commas
+    prog('actual-nested', [Def('F', 'x;y', [('x', None), ('y', None)]), Use('F', ['f(a,b)', 'g[c,d]'], ' '), Use('F', ['{p,q}', '"s,t)"'], ' '), Use('F', ['({r,s})', '(u,(v,w))'], '\n')])
+    prog('actual-string-with-ticks', [Def('F', 'x', [('x', None)]), Use('F', ['"a`b // c"'], '\n')])
+    # body features
+    prog('paste', [Def('P', 'x``_suffix pre_``x x``y', [('x', None), ('y', None)]), Use('P', ['n', 'm'], '\n')])
+    prog('stringify', [Def('S', '`"x is `\\`"y`\\`" ok`"', [('x', None), ('y', None)]), Use('S', ['left', 'right'], '\n')])
+    prog('string-untouched', [Def('S', '"x stays" x', [('x', None)]), Use('S', ['val'], '\n')])
+    prog('string-with-slashes', [Def('S', '$display("http://e.org/x", x)', [('x', None)]), Use('S', ['v'], '\n')])
+    prog('continuation', [Def('C', 'a1 \\\n  x \\\n  a3', [('x', None)]), T('h', ' '), Use('C', ['mid'], ' '), T('t', '\n')])
+    prog('body-line-comment', [Def('C', 'k1 x // trailing', [('x', None)]), Use('C', ['v'], ' '), T('t', '\n')])
+    prog('ident-boundaries', [Def('I', 'x xx x1 _x x_ (x)', [('x', None)]), Use('I', ['V'], '\n')])
+    # nesting: in bodies and in arguments; current table at point of use
+    prog('nested-in-body', [Def('IN', 'i(x)', [('x', None)]), Def('OUT', '`IN(y) + `IN(2)', [('y', None)]), Use('OUT', ['7'], '\n')])
+    prog('nested-in-arg', [Def('IN', 'i(x)', [('x', None)]), Def('W', '<x>', [('x', None)]), Use('W', ['`IN(3)'], '\n')])
+    prog('redefine-between', [Def('V', 'v1'), Def('U', '`V'), Use('U', None, ' '), Def('V', 'v2'), Use('U', None, '\n')])
+    prog('caller-table', [Def('U', '`A x', [('x', None)]), Use('U', ['1'], '\n')])
+    prog('around-preserved', [Def('M', 'mm'), T('a(', ''), Use('M', None, ''), T(')b', '  '), Use('M', None, '\n'), T('c', '\n')])
+    return P
